@@ -442,6 +442,9 @@ func (r *Reader) readV1(position int64, msg *Message) (nextPosition int64, err e
 		return -1, errInvalidHeader
 	}
 	position += v1HeaderSize
+	if !r.fits(position, int64(keySize)+int64(valueSize)) {
+		return -1, errShortMessage
+	}
 
 	// Allocate and read key/value
 	messageBytes := make([]byte, keySize+valueSize)
@@ -511,6 +514,9 @@ func (r *Reader) readV2(position int64, msg *Message) (nextPosition int64, err e
 		return -1, errInvalidHeader
 	}
 	position += v2HeaderSize
+	if !r.fits(position, int64(keySize)+int64(valueSize)+trailerSize) {
+		return -1, errShortData
+	}
 
 	// Allocate payload = headerBytes[4:] (24 bytes) ++ key ++ value ++ trailer.
 	// Combining them avoids passing a stack-allocated slice to crc32, which would
@@ -555,6 +561,22 @@ func (r *Reader) readV2(position int64, msg *Message) (nextPosition int64, err e
 	}
 
 	return position + int64(int(keySize)+int(valueSize)+trailerSize), nil
+}
+
+// fits reports whether size more bytes exist at position. It guards the allocation for
+// a message against a corrupted length field; small sizes are cheaper to just read.
+func (r *Reader) fits(position, size int64) bool {
+	const checkAbove = 64 * 1024
+	if size <= checkAbove {
+		return true
+	}
+	if r.ra != nil {
+		return position+size <= int64(r.ra.Len())
+	}
+	if stat, err := r.r.Stat(); err == nil {
+		return position+size <= stat.Size()
+	}
+	return true
 }
 
 func (r *Reader) Close() error {
